@@ -371,6 +371,10 @@ def flip_fixes(spec, GI, M, diffs, tol=1e-9, delta=Fraction(1, 10 ** 12)):
                     if gi != gm and max(gi, gm) < tol and abs(gi - gm) > Fraction(1, 10 ** 9) * max(gi, gm):
                         fixes[(t, i, k)] = thr - ip - gi          # rule: max(0, level - (ip + err)) = gi
                 else:
+                    if pol[0] == 'sS' and gi != gm and max(gi, gm) < tol and abs(gi - gm) > Fraction(1, 10 ** 9) * max(gi, gm) and Fraction(pol[2]) - gi <= thr:
+                        # (s,S) with the position exactly on s and S - position ~ 0 (e.g. s = S): as for base stock, the implementation orders ~1e-16 where the
+                        # model orders 0 (or vice versa); the records agree but the `units_ordered == 0` test of the production step L periods later does not
+                        fixes[(t, i, k)] = Fraction(pol[2]) - ip - gi; continue
                     if close(gi, gm, rel=tol, abs_=tol): continue
                     full = Fraction(pol[2]) - ip if pol[0] == 'sS' else Fraction(pol[2])
                     if cap is not None: full = min(full, cap)
